@@ -830,18 +830,10 @@ func (c *MJMLComponent) collectColumnClassesFromComponent(comp Component) {
 			c.collectColumnClassesFromComponent(child)
 		}
 	case *components.MJGroupComponent:
-		// Register group's CSS class based on its width attribute
-		groupWidth := v.GetAttribute("width")
-		if groupWidth != nil && strings.HasSuffix(*groupWidth, "px") {
-			// Parse pixel width and register pixel-based class
-			var widthPx int
-			fmt.Sscanf(*groupWidth, "%dpx", &widthPx)
-			className := fmt.Sprintf("mj-column-px-%d", widthPx)
-			c.registerColumnClass(className, styles.NewPixelSize(float64(widthPx)))
-		} else {
-			// Default to percentage-based class
-			c.registerColumnClass("mj-column-per-100", styles.NewPercentSize(100))
-		}
+		// Register the class the group's root element will carry (pixel, percentage or the
+		// 100% default), resolved the same way the group resolves it when rendering.
+		className, size := v.GetWidthClass()
+		c.registerColumnClass(className, size)
 
 		// Also recurse into children to collect column classes
 		for _, child := range v.Children {
